@@ -49,13 +49,15 @@ def effectful(name, result_kind='val', may_raise=('Exception',), log=True, havoc
   return spec
 
 
-def havoc_preexisting(ex, st):
+def havoc_preexisting(ex, st, keep=()):
   """Arbitrary user code ran: every field / container content of objects that existed before this activation may
   have changed; objects allocated by the verified activation (refs >= ALLOC_BASE) are unreachable for it, unless they
   were stored into a pre-existing object (not tracked: escape analysis is the contract author's obligation)."""
   from pyvc.state import ALLOC_BASE
   r = z3.Int('hp_r')
   for key in list(st.heap):
+    if key in keep:
+      continue
     old = st.heap[key]
     new = fresh('HP_%s_%s' % key, old.sort())
     st.heap[key] = new
